@@ -424,6 +424,23 @@ func init() {
 		Desc: "every sink attribute x U (alone, next to a valid kindmatch, as list element / map entry); every statematch value x every event state value over U^2 through the real processor; a failing expression in one sink x U with a second sink and a second event that must still be processed",
 		Rule: "full product; every case non-trivial; a panic on a worker goroutine kills the worker process and is attributed to the case through a side file",
 		Run:  func(c *Ctx) { c06Sinks(c); c.Sample(`sink s kindmatch 1, { }`) }})
+	register(&Part{Prop: "C06", Name: "self-referential-containers", Quick: 1, Thor: 1,
+		Desc: "a list that contains itself (a := [1]; a[0] := a) is rendered (log, string interpolation, comparison, dumpenv): every rendering of an ECAL value recurses through Go's fmt, which does not detect cycles - recorded finding, the worker process dies with a stack overflow and the driver attributes it through the side file",
+		Rule: "one case (the process dies on it)",
+		Run: func(c *Ctx) {
+			if !c.Mine() {
+				return
+			}
+			src := "a := [1]\na[0] := a\nlog(a)"
+			c.Risky(src)
+			out := evalECAL(src, evalOpts{budget: 3000})
+			c.Nontrivial()
+			if out.panicKey != "" {
+				c.Viol("self-referential container: "+out.panicKey, out.panicMsg, src)
+				return
+			}
+			c.Outcome("rendered")
+		}})
 	register(&Part{Prop: "C06", Name: "accepted-token-sequences", Quick: 16, Thor: 32, Replay: replay,
 		Desc: "every token sequence of length <= 3 over the full lexer alphabet and of length 4 (thorough 5) over the 34-token subset that the parser accepts is validated and evaluated under a 2000-visit step budget",
 		Rule: "odometer over token sequences (the C07 generator); non-trivial = accepted by the parser",
